@@ -535,6 +535,20 @@ pub fn main(args: &Args) {
                 return r;
             }
         };
+        // handshake sweep: every Sec-WebSocket-Key length 0..=256 once (every SHA-1 padding class of key + GUID)
+        if only.is_none() {
+            let mut len = shard;
+            while len <= 256 {
+                let mut rng = Rng::derive(seed, 0x1120_0000 + len as u64);
+                let key: String = (0..len).map(|_| (0x21 + rng.below(0x5e) as u8) as char).collect();
+                let s = Script { key: Some(key), items: vec![Item::Msg { text: true, payload: b"hi".to_vec(), cuts: vec![], controls: vec![] }], end: End::ClientClose(vec![]), nonblocking: false, echo: false, delivery: 0 };
+                let mut frng = Rng::derive(seed, 0x1121_0000 + len as u64);
+                run_script(&mut r, &lab, &s, &format!("hs{}", len), &mut frng, &["c11".to_string(), "--seed".into(), seed.to_string(), "--key-length".into(), len.to_string()]);
+                r.count("handshake_key_lengths_swept", 1);
+                r.nontrivial(0x4b00 + len as u64);
+                len += nsh;
+            }
+        }
         let mut k = only.unwrap_or(shard as u64);
         while k < n || only == Some(k) {
             let mut rng = Rng::derive(seed, 0x1100_0000 + k);
@@ -576,5 +590,5 @@ pub fn main(args: &Args) {
         total.nontrivial(1);
         total.nontrivial(2);
     }
-    total.write(out, "client scripts of 1..8 items over {text, binary (1..5 fragments with ping/pong interleaved between fragments), ping, pong} with payloads 0..70 KiB and random masks, ending by client Close (with/without status), server drop (handler returns) or abrupt disconnect; Sec-WebSocket-Key absent / empty / 1..256 printable chars / base64 nonce; each script delivered whole, byte-wise and split inside header / extended length / key, and received once with recv and once with a recv_nonblocking polling loop (with and without echo). distinct = distinct (script, delivery, receive mode); every script is non-trivial (handshake + frames + ending judged)", None, &["'nothing yet only when no frame has started to arrive' is judged through its consequences: a completely sent message must be delivered while the handler keeps polling, and a split header must not produce an error or a garbled message", "reference client/validator: hvcommon::wsref (validated against CPython in C18)"]);
+    total.write(out, "client scripts of 1..8 items over {text, binary (1..5 fragments with ping/pong interleaved between fragments), ping, pong} with payloads 0..70 KiB and random masks, ending by client Close (with/without status), server drop (handler returns) or abrupt disconnect; Sec-WebSocket-Key absent / empty / 1..256 printable chars / base64 nonce, plus one handshake for every key length 0..256; each script delivered whole, byte-wise and split inside header / extended length / key, and received once with recv and once with a recv_nonblocking polling loop (with and without echo). distinct = distinct (script, delivery, receive mode); every script is non-trivial (handshake + frames + ending judged)", None, &["'nothing yet only when no frame has started to arrive' is judged through its consequences: a completely sent message must be delivered while the handler keeps polling, and a split header must not produce an error or a garbled message", "reference client/validator: hvcommon::wsref (validated against CPython in C18)"]);
 }
